@@ -363,6 +363,7 @@ static struct AssignedIdentifier *saved_aid;
 
 static asn1p_value_t *_convert_bitstring2binary(char *str, int base);
 static void _fixup_anonymous_identifier(asn1p_expr_t *expr);
+static asn1p_expr_t *_innermost_collection_member(asn1p_expr_t *expr);
 
 static asn1p_module_t *currentModule;
 #define	NEW_EXPR()	(asn1p_expr_new(yylineno, currentModule))
@@ -3425,8 +3426,9 @@ yyreduce:
 		 */
 		if((yyval.a_expr)->expr_type == ASN_CONSTR_SEQUENCE_OF
 		|| (yyval.a_expr)->expr_type == ASN_CONSTR_SET_OF) {
-			assert(!TQ_FIRST(&((yyval.a_expr)->members))->constraints);
-			TQ_FIRST(&((yyval.a_expr)->members))->constraints = (yyvsp[(2) - (2)].a_constr);
+			asn1p_expr_t *memb = _innermost_collection_member((yyval.a_expr));
+			assert(!memb->constraints);
+			memb->constraints = (yyvsp[(2) - (2)].a_constr);
 		} else {
 			if((yyval.a_expr)->constraints) {
 				assert(!(yyvsp[(2) - (2)].a_constr));
@@ -3449,8 +3451,9 @@ yyreduce:
 		 */
 		if((yyval.a_expr)->expr_type == ASN_CONSTR_SEQUENCE_OF
 		|| (yyval.a_expr)->expr_type == ASN_CONSTR_SET_OF) {
-			assert(!TQ_FIRST(&((yyval.a_expr)->members))->constraints);
-			TQ_FIRST(&((yyval.a_expr)->members))->constraints = (yyvsp[(2) - (2)].a_constr);
+			asn1p_expr_t *memb = _innermost_collection_member((yyval.a_expr));
+			assert(!memb->constraints);
+			memb->constraints = (yyvsp[(2) - (2)].a_constr);
 		} else {
 			if((yyval.a_expr)->constraints) {
 				assert(!(yyvsp[(2) - (2)].a_constr));
@@ -3474,8 +3477,9 @@ yyreduce:
 		 */
 		if((yyval.a_expr)->expr_type == ASN_CONSTR_SEQUENCE_OF
 		|| (yyval.a_expr)->expr_type == ASN_CONSTR_SET_OF) {
-			assert(!TQ_FIRST(&((yyval.a_expr)->members))->constraints);
-			TQ_FIRST(&((yyval.a_expr)->members))->constraints = (yyvsp[(3) - (3)].a_constr);
+			asn1p_expr_t *memb = _innermost_collection_member((yyval.a_expr));
+			assert(!memb->constraints);
+			memb->constraints = (yyvsp[(3) - (3)].a_constr);
 		} else {
 			if((yyval.a_expr)->constraints) {
 				assert(!(yyvsp[(2) - (3)].a_expr));
@@ -5270,6 +5274,20 @@ _convert_bitstring2binary(char *str, int base) {
  * generate some sort of interim names, to not to force human being to fix
  * the specification's compliance to modern ASN.1 standards.
  */
+/*
+ * In SEQUENCE OF SEQUENCE OF Type (Constraint) the constraint belongs to Type,
+ * not to the nested SEQUENCE OF.
+ */
+static asn1p_expr_t *
+_innermost_collection_member(asn1p_expr_t *expr) {
+	asn1p_expr_t *memb = TQ_FIRST(&(expr->members));
+	while((memb->expr_type == ASN_CONSTR_SEQUENCE_OF
+		|| memb->expr_type == ASN_CONSTR_SET_OF)
+	&& TQ_FIRST(&(memb->members)))
+		memb = TQ_FIRST(&(memb->members));
+	return memb;
+}
+
 static void
 _fixup_anonymous_identifier(asn1p_expr_t *expr) {
 	char *p;
